@@ -63,16 +63,19 @@ def cases(draw):
                  "it's" if quote == '"' else 'say "hi"']))]]
         statics.append([draw(st.sampled_from([" ", "  ", "\n   "])), n, quote,
                         parts])
-    dyn, dseen = [], set()
+    dyn, dseen, dseen_exact = [], set(), set()
     for _ in range(draw(st.integers(0, 5))):
         c = draw(st.integers(0, 9))
         if c <= 1:
             dyn.append([None, ["var", draw(st.sampled_from(["d0", "d1"]))]])
             continue
         n = draw(st.sampled_from(NAMES + ["rel", "Href", "ID"]))
-        if n.lower() in dseen:
-            continue
+        if n in dseen_exact:
+            continue            # (the same spelling twice is an error)
+        if n.lower() in dseen and draw(st.integers(0, 2)) > 0:
+            continue            # (case variants of one name: sometimes)
         dseen.add(n.lower())
+        dseen_exact.add(n)
         k = draw(st.integers(0, 11))
         if k == 0:
             e = ["default"]
@@ -86,8 +89,11 @@ def cases(draw):
         elif k == 3:
             e = ["pipe", [["var", "missing"], ["default"]]]
         elif k == 4:
-            e = ["prefix", "string", ["string", [["lit", "s:"], ["v", "v0"],
-                                                 ["lit", ";t"]]]]
+            # (a string: value may END in a semicolon: the doubled one is
+            # then directly followed by the separator)
+            e = ["prefix", "string", ["string", [
+                ["lit", "s:"], ["v", "v0"],
+                ["lit", draw(st.sampled_from([";t", ";", "!;", ";;"]))]]]]
         else:
             e = ["var", draw(st.sampled_from(["v0", "v1", "v2", "v3"]))]
         dyn.append([n, e])
